@@ -142,8 +142,10 @@ def readall (ins : List Vec) (rds : List Rd) : RA :=
     { tr := [.inputs, .inputAck 0, .inputAck 0], total := 0, used := 1, stuck := false }
   | (.room, _), .err :: _ => { tr := [.inputs, .inputAck (-1)], total := -1, used := 1, stuck := false }
   | (.room, ins'), .ok (n+1) :: rs =>
-    let r := readall ins' rs
-    { tr := .inputs :: .inputAck (n+1 : Nat) :: r.tr, total := (n+1 : Nat) + r.total, used := r.used + 1, stuck := r.stuck }
+    { tr := .inputs :: .inputAck (n+1 : Nat) :: (readall ins' rs).tr
+      total := (n+1 : Nat) + (readall ins' rs).total
+      used := (readall ins' rs).used + 1
+      stuck := (readall ins' rs).stuck }
 
 /-- the part of one event's handling before the closing step -/
 structure Body where
@@ -174,16 +176,18 @@ def errPhase (op : Op) (t : Trig) (sc : Script) (pre : List Cb) (usedR : Nat) : 
     { tr := pre, hup := !(sc.errq usedR), usedR, usedS := 0, stuck := false }
   else writePhase op t sc pre usedR
 
+/-- after `readall` returned `r`: `totalRead += leftRead`, hang up only if nothing was read -/
+def afterReadall (op : Op) (t : Trig) (sc : Script) (pre : List Cb) (totalRead : Int) (usedR : Nat) (r : RA) : Body :=
+  if r.stuck then { tr := pre ++ r.tr, hup := false, usedR := usedR + r.used, usedS := 0, stuck := true }
+  else if totalRead + r.total == 0 then
+    { tr := pre ++ r.tr, hup := true, usedR := usedR + r.used, usedS := 0, stuck := false }
+  else errPhase op t sc (pre ++ r.tr) (usedR + r.used)
+
 /-- `if triggerHup {...}` then the rest -/
 def hupPhase (op : Op) (t : Trig) (sc : Script) (pre : List Cb) (totalRead : Int) (usedR : Nat)
     (ins : List Vec) (rds : List Rd) : Body :=
   if t.hup then
-    if t.rd && op.inputs then
-      let r := readall ins rds
-      if r.stuck then { tr := pre ++ r.tr, hup := false, usedR := usedR + r.used, usedS := 0, stuck := true }
-      else if totalRead + r.total == 0 then
-        { tr := pre ++ r.tr, hup := true, usedR := usedR + r.used, usedS := 0, stuck := false }
-      else errPhase op t sc (pre ++ r.tr) (usedR + r.used)
+    if t.rd && op.inputs then afterReadall op t sc pre totalRead usedR (readall ins rds)
     else if totalRead == 0 then { tr := pre, hup := true, usedR, usedS := 0, stuck := false }
     else errPhase op t sc pre usedR
   else errPhase op t sc pre usedR
